@@ -558,7 +558,7 @@ impl Interp {
                 self.call(&fv, vs)?
             }
             Expr::Lambda(params, ret, body) => self.closure(params, ret, body, env, None),
-            Expr::MutNew(t, x) => {
+            Expr::MutNew(t, x) | Expr::MutAuto(t, x) => {
                 let v = self.expr(x, env)?;
                 self.counters.cells_created += 1;
                 RVal::Cell(Rc::new(CellData { declared: t.clone(), content: RefCell::new(v) }))
